@@ -5,6 +5,7 @@ import (
 	"unicode/utf8"
 
 	"github.com/hashicorp/hcl-lang/lang"
+	"github.com/hashicorp/hcl-lang/reference"
 	"github.com/hashicorp/hcl/v2"
 )
 
@@ -225,5 +226,63 @@ func VerifH_C18_Shift_TwoFiles() {
 	if ha != nil && hb != nil {
 		verifAssert(ha.Content.Value == hb.Content.Value, "C18:hover-in-untouched-file-same")
 	}
+	verifReach("end")
+}
+
+// C18 over two files stamped from one template: both files of the path write a reference to the
+// same address at the same line and column; lines are inserted in the first file only. The origins
+// collected for the path, and hover / go-to-definition on the reference in the untouched file,
+// stay the same up to the shift.
+func VerifH_C18_Shift_TwoFiles_Origins() {
+	main := "out \"m\" {\n  value = var.v\n}\n"
+	over := "out \"o\" {\n  value = var.v\n}\nvariable \"v\" {\n  type = number\n}\n"
+	verifShiftSeedLen = len(main)
+	A := verifParseHCL(main, fa)
+	B := verifStretch(main, fb, 0, 2)
+	mk := func(name string, f *hcl.File) (*PathDecoder, *PathContext) {
+		pc := &PathContext{Schema: verifSchemas(2), Files: map[string]*hcl.File{name: f, "o.tf": verifParseHCL(over, "o.tf")}, Functions: verifFunctions()}
+		d := NewDecoder(&verifPathReader{paths: map[string]*PathContext{"dir": pc}})
+		d.SetContext(NewDecoderContext())
+		pd, _ := d.Path(lang.Path{Path: "dir"})
+		if ts, err := pd.CollectReferenceTargets(); err == nil {
+			pc.ReferenceTargets = ts
+		}
+		if os, err := pd.CollectReferenceOrigins(); err == nil {
+			pc.ReferenceOrigins = os
+		}
+		return pd, pc
+	}
+	da, pa := mk(fa, A)
+	db, pb := mk(fb, B)
+	oa, ob := pa.ReferenceOrigins, pb.ReferenceOrigins
+	verifAssert(len(oa) == len(ob), "C18:origins-count-same")
+	for k := range oa {
+		if k < len(ob) {
+			if oa[k].OriginRange().Filename == "o.tf" {
+				verifAssert(verifSameRange(oa[k].OriginRange(), ob[k].OriginRange()), "C18:origin-in-untouched-file-unchanged")
+			} else {
+				verifAssert(verifMoved(oa[k].OriginRange(), ob[k].OriginRange()), "C18:origin-range-moved")
+			}
+			ma, oka := oa[k].(reference.MatchableOrigin)
+			mb, okb := ob[k].(reference.MatchableOrigin)
+			verifAssert(oka == okb, "C18:origin-kind-same")
+			if oka && okb {
+				verifAssert(len(ma.OriginConstraints()) == len(mb.OriginConstraints()), "C18:origin-constraints-same")
+			}
+		}
+	}
+	// hover and go-to-definition on the reference written in the untouched file
+	q, _ := verifPosAt(over, len("out \"o\" {\n  value = va"))
+	ha, ea := da.HoverAtPos(context.Background(), "o.tf", q)
+	hb, eb := db.HoverAtPos(context.Background(), "o.tf", q)
+	verifAssert((ea == nil) == (eb == nil), "C18:hover-error-same")
+	verifAssert((ha == nil) == (hb == nil), "C18:hover-presence-same")
+	if ha != nil && hb != nil {
+		verifAssert(ha.Content.Value == hb.Content.Value, "C18:hover-in-untouched-file-same")
+	}
+	ta, _ := da.SemanticTokensInFile(context.Background(), "o.tf")
+	tb, _ := db.SemanticTokensInFile(context.Background(), "o.tf")
+	verifAssert(len(ta) == len(tb), "C18:semtok-count-in-untouched-file-same")
+	verifAssert(len(oa) == 2, "C10:one-origin-per-written-reference-in-each-file")
 	verifReach("end")
 }
